@@ -180,7 +180,7 @@ def collect_writes(f, facts, sub_param=None, depth=0, _memo=None):
     sub = sub_param if sub_param is not None else submission_param(f)
     if sub is None:
         raise AnchorMissing('no &mut Submission parameter in %s' % f.path)
-    eb = ExprBuilder(f)
+    eb = ExprBuilder(f, multi='phi')
     upv = upvar_names(f) if f.kind == 'closure' else {}
     out = []
     for loc, s in f.assigns():
